@@ -174,6 +174,10 @@ func compile(g *lookup, tok *token, optimize bool) (ins []instruction, slots int
 func (c *compiler) run(tok *token) (ins []instruction, slots int, err error) {
 	defer func() {
 		if r := recover(); r != nil {
+			if c.cur == nil { // failed before any node was compiled
+				err = fmt.Errorf("%v", r)
+				return
+			}
 			err = fmt.Errorf("%v: %v", c.cur.Pos, r)
 		}
 	}()
@@ -283,6 +287,9 @@ var builtinMap = map[string]code{
 }
 
 func (c *compiler) compile(tok *token) []instruction {
+	if tok == nil { // an operator whose operand the parser could not supply, e.g. "x /;"
+		panicf("missing operand")
+	}
 	c.cur = tok
 	var res []instruction
 	switch tok.Symbol {
